@@ -8,7 +8,7 @@ import { canon } from '../runtime/canon.mjs';
 export const id = 'C03';
 
 export const HOSTS = ['boundImport', 'unbound', 'member', 'Teleport'];
-export const SHAPES = ['none', 'identBound', 'identUnbound', 'call', 'arrow', 'fnExpr', 'object', 'text', 'element', 'memberExpr', 'cond', 'mixed1', 'mixed2', 'spread', 'spreadCall', 'spreadThenText', 'nestedComp', 'wsOnly'];
+export const SHAPES = ['none', 'identBound', 'identUnbound', 'call', 'arrow', 'fnExpr', 'object', 'text', 'element', 'memberExpr', 'cond', 'mixed1', 'mixed2', 'spread', 'spreadCall', 'spreadThenText', 'nestedComp', 'wsOnly', 'optMember', 'optMemberDeep', 'template', 'binary', 'newExpr', 'arrayLit', 'logicalOr', 'parenCall', 'awaitLike'];
 export const KINDS = ['vnode', 'string', 'array', 'slots', 'slotfn', 'number', 'nullish'];
 export const VSLOTS = ['absent', 'ident', 'objLit'];
 export const CONTEXTS = ['arrowExpr', 'moduleLevel', 'fnBody', 'nestedBlock', 'classMethod', 'arrowInArrow'];
@@ -69,6 +69,15 @@ export function makeKids(b, shape, kind, st = { n: 0 }) {
     case 'text': return [C.text(`hello ${st.n++}`)];
     case 'element': return [C.el({ tag: { kind: 'html', name: 'i', src: 'i' }, attrs: [A.attr('id', { k: 'str', raw: `k${st.n++}` })], children: [], selfClose: true })];
     case 'memberExpr': { const m = b.proxyGlobal(); return [{ ...C.expr(b.leaf(`${m}.kid`), `${m}.kid`), shape: 'other' }]; }
+    case 'optMember': { const m = b.proxyGlobal(); return [{ ...C.expr(b.leaf(`${m}?.kid`), `${m}?.kid`), shape: 'other' }]; }
+    case 'optMemberDeep': { const m = b.proxyGlobal({ user: { k: 'obj', v: { name: val } } }); return [{ ...C.expr(b.leaf(`${m}.user?.name`), `${m}.user?.name`), shape: 'other' }]; }
+    case 'template': { const g = b.global({ k: 'str', v: 'T' }); return [{ ...C.expr(b.leaf('`t-${' + g + '}`'), '`t-${' + g + '}`'), shape: 'other' }]; }
+    case 'binary': { const f = b.fnGlobal({ k: 'str', v: 'bin' }); return [{ ...C.expr(b.leaf(`${f}() + "!"`), `${f}() + "!"`), shape: 'other' }]; }
+    case 'newExpr': { const f = b.fnGlobal(val); return [{ ...C.expr(b.leaf(`new Object(${f}())`), `new Object(${f}())`), shape: 'other' }]; }
+    case 'arrayLit': { const f = b.fnGlobal(val); return [{ ...C.expr(b.leaf(`[${f}()]`), `[${f}()]`), shape: 'other' }]; }
+    case 'logicalOr': { const f = b.fnGlobal(val); return [{ ...C.expr(b.leaf(`null || ${f}()`), `null || ${f}()`), shape: 'other' }]; }
+    case 'parenCall': { const f = b.fnGlobal(val); return [{ ...C.expr(b.leaf(`(0, ${f}())`), `(0, ${f}())`), shape: 'other' }]; }
+    case 'awaitLike': { const f = b.fnGlobal(val); return [{ ...C.expr(b.leaf(`void 0 ?? ${f}()`), `void 0 ?? ${f}()`), shape: 'other' }]; }
     case 'cond': {
       const c = b.global({ k: 'bool', v: true }); const f = b.fnGlobal(val);
       const src = `${c} ? ${f}() : null`;
@@ -125,7 +134,7 @@ function build(host, shape, kind, vs, ctx) {
   return { src: b.source(), spec: { thunks: [{ name: 't0', el }], env: b.env, ctx, shape, vs } };
 }
 
-const RUNTIME_SHAPES = new Set(['identBound', 'identUnbound', 'call', 'cond', 'mixed1', 'mixed2', 'nestedComp']);
+const RUNTIME_SHAPES = new Set(['identBound', 'identUnbound', 'call', 'cond', 'mixed1', 'mixed2', 'nestedComp', 'optMemberDeep', 'newExpr', 'arrayLit', 'logicalOr', 'parenCall', 'awaitLike']);
 const OPTS = [];
 for (const enableObjectSlots of [true, false]) for (const optimize of [false, true]) OPTS.push({ enableObjectSlots, optimize });
 
